@@ -64,6 +64,9 @@ type TGen struct {
 	tag      int
 	Hostile  bool // literal text may contain brace characters and directive look-alikes
 	HostileV bool // data values may contain placeholders and directives (they must be inserted verbatim)
+	// LoopVarsInNested allows {{this}}, {{@index}}, {{@first}}, {{@last}} in the body of a nested loop
+	LoopVarsInNested bool
+	MissingNested    bool // items may lack the list a nested loop iterates
 	Else     bool // generate {{else}} branches
 	Nested   bool // nested each
 	Newlines bool
@@ -76,6 +79,7 @@ var (
 	tLists = []string{"items", "rows", "people"}
 	tField = []string{"f1", "f2", "label", "qty"}
 	tSub   = []string{"subs", "tags"}
+	tFlag  = []string{"ok", "on"} // item fields that are booleans (or absent): conditions inside loops use these
 )
 
 func (g *TGen) lit() *TNode {
@@ -128,7 +132,11 @@ func (g *TGen) each(list string, depth int) *TNode {
 	nd := &TNode{Kind: "each", Name: list}
 	k := 1 + g.R.Intn(4)
 	for i := 0; i < k; i++ {
-		switch g.R.Intn(9) {
+		x := g.R.Intn(9)
+		if depth >= 1 && !g.LoopVarsInNested && x >= 1 && x <= 3 {
+			x = 4
+		}
+		switch x {
 		case 0:
 			nd.Kids = append(nd.Kids, g.lit())
 		case 1:
@@ -140,7 +148,7 @@ func (g *TGen) each(list string, depth int) *TNode {
 		case 4, 5:
 			nd.Kids = append(nd.Kids, &TNode{Kind: "field", Name: tField[g.R.Intn(len(tField))]})
 		case 6:
-			c := &TNode{Kind: "iffield", Name: tField[g.R.Intn(len(tField))], Kids: []*TNode{g.lit()}}
+			c := &TNode{Kind: "iffield", Name: tFlag[g.R.Intn(len(tFlag))], Kids: []*TNode{g.lit()}}
 			if g.Else && g.R.Bool() {
 				c.HasE = true
 				c.Else = []*TNode{g.lit()}
@@ -197,7 +205,7 @@ func (g *TGen) Data() *TData {
 		if g.R.Chance(0.85) {
 			n := g.R.Intn(4)
 			items := []any{}
-			maps := g.R.Chance(0.7)
+			maps := g.R.Chance(0.7) || g.Nested // a nested loop needs items that can carry a list
 			for i := 0; i < n; i++ {
 				if !maps {
 					items = append(items, g.scalar())
@@ -209,15 +217,20 @@ func (g *TGen) Data() *TData {
 						it[f] = g.scalar()
 					}
 				}
+				for _, f := range tFlag {
+					if g.R.Chance(0.7) {
+						it[f] = g.R.Bool()
+					}
+				}
 				if g.Nested {
 					for _, s := range tSub {
-						if g.R.Chance(0.6) {
+						if g.R.Chance(0.6) || !g.MissingNested { // (a nested loop over a list the item lacks: listed finding)
 							sub := []any{}
 							for j := g.R.Intn(3); j > 0; j-- {
-								if g.R.Bool() {
+								if g.R.Bool() && g.MissingNested { // (mixed scalar/map items in a nested list: only in wild runs)
 									sub = append(sub, g.scalar())
 								} else {
-									sub = append(sub, map[string]any{"f1": g.scalar(), "label": g.scalar()})
+									sub = append(sub, map[string]any{"f1": g.scalar(), "label": g.scalar(), "ok": g.R.Bool()})
 								}
 							}
 							it[s] = sub
